@@ -11,6 +11,10 @@ import (
 // efficient, it requires less extra traffic while provides comparable entropy.
 const responsePaddingMaxSize = 32
 
+// responsePaddingOptMaxSize is the maximum size of the padding option on the
+// wire: the option code, the option length, and the padding itself.
+const responsePaddingOptMaxSize = 2 + 2 + responsePaddingMaxSize
+
 // respPadBuf is a fixed buffer to draw on for padding.
 var respPadBuf [responsePaddingMaxSize]byte
 
@@ -66,13 +70,21 @@ func normalize(network Network, proto Protocol, req, resp *dns.Msg, maxMsgSize u
 	}
 
 	// Make sure that we don't send messages larger than the protocol supports.
-	truncate(resp, maxDNSSize(network, ednsUDPSize, maxMsgSize))
+	// In the case of encrypted protocols we should pad responses.  Since the
+	// padding option is added after the truncation, leave room for it, so that
+	// the padded response still fits the limit.
+	size := maxDNSSize(network, ednsUDPSize, maxMsgSize)
+	willPad := proto.HasPaddingSupport() && findOption[*dns.EDNS0_PADDING](reqOpt) != nil
+	if willPad {
+		size -= responsePaddingOptMaxSize
+	}
+
+	truncate(resp, size)
 
 	// Always compress the response.
 	resp.Compress = true
 
-	// In the case of encrypted protocols we should pad responses.
-	if proto.HasPaddingSupport() {
+	if willPad {
 		padAnswer(reqOpt, respOpt)
 	}
 }
